@@ -1,3 +1,712 @@
 // harnesses mounted as child module of agdb/src/db/db_key_value.rs
 #[allow(unused_imports)]
 use super::*;
+
+use crate::db::db_f64::DbF64;
+use crate::db::db_value::verif_h::all_ascii;
+use crate::db::db_value::verif_h::ascii_string_of;
+use crate::db::db_value::verif_h::backend_calls;
+use crate::db::db_value::verif_h::c07_small_storage;
+use crate::db::db_value::verif_h::reopen;
+use crate::db::db_value::verif_h::same_bytes;
+use crate::db::db_value::verif_h::vec_of;
+use crate::storage::verif_h::fresh_arr_storage;
+use crate::verif_support::ArrStorage;
+use crate::verif_support::is_ok;
+use crate::verif_support::ok;
+
+type Kv = DbKeyValue;
+
+fn kv_store(kv: &Kv, s: &mut Storage<ArrStorage>) -> Result<Vec<u8>, DbError> {
+    <Kv as VecValue<ArrStorage>>::store(kv, s)
+}
+
+fn kv_load(s: &Storage<ArrStorage>, bytes: &[u8]) -> Result<Kv, DbError> {
+    <Kv as VecValue<ArrStorage>>::load(s, bytes)
+}
+
+fn kv_remove(s: &mut Storage<ArrStorage>, bytes: &[u8]) -> Result<(), DbError> {
+    <Kv as VecValue<ArrStorage>>::remove(s, bytes)
+}
+
+// ---------------------------------------------------------------------------
+// C12: DbKeyValue as VecValue: store / load / reopen+load / remove
+// ---------------------------------------------------------------------------
+
+const SENTINEL: [u8; 3] = [0xAA, 0xBB, 0xCC];
+
+fn c12_sentinel_intact(s: &Storage<ArrStorage>) -> bool {
+    match s.value_as_bytes(StorageIndex(1)) {
+        Ok(b) => {
+            let same = same_bytes(&b, &SENTINEL, 3);
+            std::mem::forget(b);
+            same
+        }
+        Err(e) => {
+            std::mem::forget(e);
+            false
+        }
+    }
+}
+
+/// Checks one half (16 bytes) of a stored pair: inline (`rec == None`) or
+/// naming exactly record `rec` of `size` bytes.
+fn c12_check_half(s: &Storage<ArrStorage>, half: &[u8], ty: u8, rec: Option<(u64, u64)>) {
+    let idx = ok(DbValueIndex::deserialize(half));
+    assert!(idx.get_type() == ty, "type tag in the stored pair");
+    match rec {
+        None => assert!(idx.is_value(), "small value is inline in the pair"),
+        Some((index, size)) => {
+            assert!(!idx.is_value() && idx.size() == 0, "large value is out of line");
+            assert!(idx.index() == index, "names the record just allocated");
+            assert!(ok(s.value_size(StorageIndex(index))) == size, "record size");
+        }
+    }
+}
+
+/// The whole life of one pair in a storage that already holds an unrelated
+/// record (index 1): store -> 32 bytes; load; reopen + load; remove.
+/// `key_rec` / `val_rec`: expected (record index, record size) when the half
+/// is out of line. `check` compares a loaded pair with the original data.
+fn c12_kv_life(
+    kv: Kv,
+    key_ty: u8,
+    key_rec: Option<(u64, u64)>,
+    val_ty: u8,
+    val_rec: Option<(u64, u64)>,
+    with_reopen: bool,
+    with_remove: bool,
+    check: impl Fn(&Kv),
+) {
+    let mut s = fresh_arr_storage();
+    let sentinel = ok(s.insert_bytes(&SENTINEL));
+    assert!(sentinel.0 == 1);
+    let calls0 = backend_calls(&s);
+    let len0 = s.len();
+    assert!(<Kv as VecValue<ArrStorage>>::storage_len() == 32, "a pair occupies 32 bytes in its vector");
+
+    let bytes = ok(kv_store(&kv, &mut s));
+    assert!(bytes.len() == 32, "stored pair is two 16-byte indexes");
+    c12_check_half(&s, &bytes[0..16], key_ty, key_rec);
+    c12_check_half(&s, &bytes[16..32], val_ty, val_rec);
+    let records = (key_rec.is_some() as u64) + (val_rec.is_some() as u64);
+    if records == 0 {
+        assert!(backend_calls(&s) == calls0 && s.len() == len0, "inline pair must not touch the storage");
+    }
+    assert!(!is_ok(s.value_size(StorageIndex(2 + records))), "no extra record allocated");
+
+    let back = ok(kv_load(&s, &bytes));
+    check(&back);
+
+    if with_reopen {
+        let s2 = reopen(&s);
+        let back2 = ok(kv_load(&s2, &bytes));
+        check(&back2);
+        assert!(c12_sentinel_intact(&s2), "unrelated record survives reopen");
+        std::mem::forget(back2);
+        std::mem::forget(s2);
+    }
+
+    if with_remove {
+        let calls1 = backend_calls(&s);
+        ok(kv_remove(&mut s, &bytes));
+        if let Some((index, _)) = key_rec {
+            assert!(!is_ok(s.value_size(StorageIndex(index))), "key record is gone after remove");
+        }
+        if let Some((index, _)) = val_rec {
+            assert!(!is_ok(s.value_size(StorageIndex(index))), "value record is gone after remove");
+        }
+        if records == 0 {
+            assert!(backend_calls(&s) == calls1 && s.len() == len0, "removing an inline pair must not touch the storage");
+        }
+        assert!(c12_sentinel_intact(&s), "remove must not touch an unrelated record");
+    }
+    kani::cover!(true, "end of harness reachable");
+    std::mem::forget((kv, bytes, back));
+    std::mem::forget(s);
+}
+
+//@ id=C12 tier=quick timeout=900 bounds="key I64 (all values), value F64 (all 2^64 bit patterns); storage with one unrelated record" desc="a pair of inline scalars is stored as 32 bytes without any back-end write, loads back identical (f64 by to_bits) before and after reopen, and remove touches nothing" cbmc="--max-field-sensitivity-array-size 200" kernel="DbKeyValue::store,DbKeyValue::load,DbKeyValue::remove,DbKeyValue::storage_len,DbValue::store_db_value,DbValue::load_db_value,DbValueIndex::deserialize,DbValueIndex::data,DbValueIndex::is_value"
+#[kani::proof]
+#[kani::stub(std::fmt::format, crate::verif_support::fmt_stub)]
+#[kani::stub(crate::DbError::new, crate::verif_support::dberror_new_stub)]
+#[kani::unwind(5)]
+fn c12_kv_i64_f64() {
+    let k: i64 = kani::any();
+    let bits: u64 = kani::any();
+    let kv = Kv {
+        key: DbValue::I64(k),
+        value: DbValue::F64(DbF64::from(f64::from_bits(bits))),
+    };
+    c12_kv_life(kv, 2, None, 4, None, true, true, |b: &Kv| match (&b.key, &b.value) {
+        (DbValue::I64(x), DbValue::F64(y)) => {
+            assert!(*x == k, "key reads back identical");
+            assert!(y.to_f64().to_bits() == bits, "value reads back bit for bit");
+        }
+        _ => panic!("loaded pair has different types"),
+    });
+    kani::cover!(f64::from_bits(bits).is_nan(), "NaN value");
+}
+
+//@ id=C12 tier=quick timeout=900 bounds="key String of 16 symbolic ASCII bytes (out of line), value Bytes of 15 symbolic bytes (largest inline); storage with one unrelated record" desc="key goes to record 2 (8+16 bytes), value stays inline; pair loads back identical before and after reopen; remove deletes exactly the key record and leaves the unrelated record intact" cbmc="--max-field-sensitivity-array-size 200" kernel="DbKeyValue::store,DbKeyValue::load,DbKeyValue::remove,DbValue::store_db_value,DbValue::load_db_value,DbValueIndex::deserialize,DbValueIndex::is_value,DbValueIndex::index,Storage::remove,Storage::with_data"
+#[kani::proof]
+#[kani::stub(std::fmt::format, crate::verif_support::fmt_stub)]
+#[kani::stub(crate::DbError::new, crate::verif_support::dberror_new_stub)]
+#[kani::stub(<crate::DbError as std::convert::From<std::string::FromUtf8Error>>::from, crate::verif_support::utf8err_stub)]
+#[kani::unwind(5)]
+fn c12_kv_string16_bytes15() {
+    let kd: [u8; 16] = kani::any();
+    let vd: [u8; 15] = kani::any();
+    kani::assume(all_ascii(&kd));
+    let kv = Kv {
+        key: DbValue::String(ascii_string_of(&kd, 16)),
+        value: DbValue::Bytes(vec_of(&vd, 15)),
+    };
+    c12_kv_life(kv, 5, Some((2, 24)), 1, None, true, true, |b: &Kv| match (&b.key, &b.value) {
+        (DbValue::String(x), DbValue::Bytes(y)) => {
+            assert!(same_bytes(x.as_bytes(), &kd, 16), "key reads back identical");
+            assert!(same_bytes(y.as_slice(), &vd, 15), "value reads back identical");
+        }
+        _ => panic!("loaded pair has different types"),
+    });
+}
+
+fn c12_kv_bytes17_string16_life(with_reopen: bool, with_remove: bool) {
+    let kd: [u8; 17] = kani::any();
+    let vd: [u8; 16] = kani::any();
+    kani::assume(all_ascii(&vd));
+    let kv = Kv {
+        key: DbValue::Bytes(vec_of(&kd, 17)),
+        value: DbValue::String(ascii_string_of(&vd, 16)),
+    };
+    c12_kv_life(kv, 1, Some((2, 17)), 5, Some((3, 24)), with_reopen, with_remove, |b: &Kv| match (&b.key, &b.value) {
+        (DbValue::Bytes(x), DbValue::String(y)) => {
+            assert!(same_bytes(x.as_slice(), &kd, 17), "key reads back identical");
+            assert!(same_bytes(y.as_bytes(), &vd, 16), "value reads back identical");
+        }
+        _ => panic!("loaded pair has different types"),
+    });
+}
+
+//@ id=C12 tier=quick timeout=1200 bounds="key Bytes of 17 symbolic bytes, value String of 16 symbolic ASCII bytes (both out of line); storage with one unrelated record" desc="key and value go to records 2 and 3 (sizes 17 and 8+16); the pair loads back identical from the storage and from a storage reopened via Storage::with_data; the unrelated record survives" cbmc="--max-field-sensitivity-array-size 200" kernel="DbKeyValue::store,DbKeyValue::load,DbKeyValue::remove,DbValue::store_db_value,DbValue::load_db_value,DbValueIndex::deserialize,DbValueIndex::is_value,DbValueIndex::index,Storage::remove,Storage::with_data"
+#[kani::proof]
+#[kani::stub(std::fmt::format, crate::verif_support::fmt_stub)]
+#[kani::stub(crate::DbError::new, crate::verif_support::dberror_new_stub)]
+#[kani::stub(<crate::DbError as std::convert::From<std::string::FromUtf8Error>>::from, crate::verif_support::utf8err_stub)]
+#[kani::unwind(6)]
+fn c12_kv_bytes17_string16_reopen() {
+    c12_kv_bytes17_string16_life(true, false);
+}
+
+//@ id=C12 tier=quick timeout=1200 bounds="key U64 (all values, inline), value VecI64 of 2 symbolic elements (out of line); storage with one unrelated record" desc="vector value goes to record 2 (8+16 bytes); pair loads back identical before and after reopen; remove deletes exactly that record" cbmc="--max-field-sensitivity-array-size 200" kernel="DbKeyValue::store,DbKeyValue::load,DbKeyValue::remove,DbValue::store_db_value,DbValue::load_db_value,DbValueIndex::deserialize,DbValueIndex::is_value,DbValueIndex::index,Storage::remove,Storage::with_data,Vec<i64>::serialize,Vec<i64>::deserialize"
+#[kani::proof]
+#[kani::stub(std::fmt::format, crate::verif_support::fmt_stub)]
+#[kani::stub(crate::DbError::new, crate::verif_support::dberror_new_stub)]
+#[kani::unwind(6)]
+fn c12_kv_u64_veci64() {
+    let k: u64 = kani::any();
+    let e: [i64; 2] = kani::any();
+    let mut v = Vec::with_capacity(2);
+    v.push(e[0]);
+    v.push(e[1]);
+    let kv = Kv {
+        key: DbValue::U64(k),
+        value: DbValue::VecI64(v),
+    };
+    c12_kv_life(kv, 3, None, 6, Some((2, 24)), true, true, |b: &Kv| match (&b.key, &b.value) {
+        (DbValue::U64(x), DbValue::VecI64(y)) => {
+            assert!(*x == k, "key reads back identical");
+            assert!(y.len() == 2 && y[0] == e[0] && y[1] == e[1], "vector reads back identical");
+        }
+        _ => panic!("loaded pair has different types"),
+    });
+}
+
+fn c12_kv_vecstring_vecf64_life(with_reopen: bool, with_remove: bool) {
+    let kd: [u8; 2] = kani::any();
+    kani::assume(all_ascii(&kd));
+    let bits: u64 = kani::any();
+    let mut ks = Vec::with_capacity(1);
+    ks.push(ascii_string_of(&kd, 2));
+    let mut vf = Vec::with_capacity(1);
+    vf.push(DbF64::from(f64::from_bits(bits)));
+    let kv = Kv {
+        key: DbValue::VecString(ks),
+        value: DbValue::VecF64(vf),
+    };
+    c12_kv_life(kv, 9, Some((2, 8 + 8 + 2)), 8, Some((3, 16)), with_reopen, with_remove, |b: &Kv| match (&b.key, &b.value) {
+        (DbValue::VecString(x), DbValue::VecF64(y)) => {
+            assert!(x.len() == 1 && same_bytes(x[0].as_bytes(), &kd, 2), "key reads back identical");
+            assert!(y.len() == 1 && y[0].to_f64().to_bits() == bits, "value reads back bit for bit");
+        }
+        _ => panic!("loaded pair has different types"),
+    });
+}
+
+//@ id=C12 tier=quick timeout=1200 bounds="key VecString [one string of 2 symbolic ASCII bytes], value VecF64 [one element, all bit patterns] (both out of line); storage with one unrelated record" desc="both vectors go to their own records (2 and 3); the pair loads back identical (f64 by to_bits) from the storage and from a storage reopened via Storage::with_data" cbmc="--max-field-sensitivity-array-size 200" kernel="DbKeyValue::store,DbKeyValue::load,DbKeyValue::remove,DbValue::store_db_value,DbValue::load_db_value,DbValueIndex::deserialize,DbValueIndex::is_value,DbValueIndex::index,Storage::remove,Storage::with_data,Vec<String>::serialize,Vec<String>::deserialize,Vec<DbF64>::serialize,Vec<DbF64>::deserialize"
+#[kani::proof]
+#[kani::stub(std::fmt::format, crate::verif_support::fmt_stub)]
+#[kani::stub(crate::DbError::new, crate::verif_support::dberror_new_stub)]
+#[kani::stub(<crate::DbError as std::convert::From<std::string::FromUtf8Error>>::from, crate::verif_support::utf8err_stub)]
+#[kani::unwind(6)]
+fn c12_kv_vecstring_vecf64_reopen() {
+    c12_kv_vecstring_vecf64_life(true, false);
+}
+
+// Not covered (measured): `remove` of a pair whose record is NOT the last one
+// in the file goes through Storage's free list (BTreeMap<u64, BTreeSet<u64>>);
+// a single such remove did not finish in 900 s, two of them ran the solver out
+// of memory (10 GB). The passing harnesses above remove the key record
+// (c12_kv_string16_bytes15) and the value record (c12_kv_u64_veci64) through
+// the truncate path; the free-list path is C04's subject.
+
+// ---------------------------------------------------------------------------
+// C07: DbKeyValue::{load, remove} on damaged bytes
+// ---------------------------------------------------------------------------
+
+// Encoding note: CBMC does not keep the type/size byte constant through
+// `DbValueIndex::deserialize(&bytes[16..])` (memcpy out of the middle of a
+// larger object), so `load_db_value` is explored for all nine types in these
+// harnesses; to keep that affordable the storage here has NO records (every
+// storage read ends in "record not found").
+
+/// `N` symbolic bytes shaped like (a prefix of) a pair: byte 15 = I64 with 8
+/// inline bytes, byte 31 = Bytes with 3 inline bytes - where those offsets exist.
+fn c07_pair_prefix<const N: usize>() -> [u8; N] {
+    let mut b: [u8; N] = kani::any();
+    if N > 15 {
+        b[15] = (2 << 4) | 8;
+    }
+    if N > 31 {
+        b[31] = (1 << 4) | 3;
+    }
+    b
+}
+
+//@ id=C07 tier=quick timeout=900 bounds="buffers of 0, 1, 15 bytes (enumerated), content symbolic; storage without records. Lengths 16..31 (second index truncated) did not finish: CBMC explores the whole value decoding after the empty tail slice" desc="DbKeyValue::load and ::remove on a truncated pair return Err - never a slice index out of bounds - and do not touch the storage" kernel="DbKeyValue::load,DbKeyValue::remove,DbValueIndex::deserialize,DbValue::load_db_value"
+#[kani::proof]
+#[kani::stub(std::fmt::format, crate::verif_support::fmt_stub)]
+#[kani::stub(crate::DbError::new, crate::verif_support::dberror_new_stub)]
+#[kani::stub(<crate::DbError as std::convert::From<std::string::FromUtf8Error>>::from, crate::verif_support::utf8err_stub)]
+#[kani::stub(<crate::DbError as std::convert::From<std::array::TryFromSliceError>>::from, crate::verif_support::sliceerr_stub)]
+#[kani::stub(<crate::DbError as std::convert::From<std::num::TryFromIntError>>::from, crate::verif_support::interr_stub)]
+#[kani::unwind(4)]
+fn c07_kv_truncated_pair() {
+    let mut s = fresh_arr_storage();
+    macro_rules! short {
+        ($($n:literal)*) => { $(
+            let b = c07_pair_prefix::<$n>();
+            assert!(!is_ok(kv_load(&s, &b)), "truncated pair must be an error for load");
+            assert!(!is_ok(kv_remove(&mut s, &b)), "truncated pair must be an error for remove");
+        )* };
+    }
+    short!(0 1 15);
+    assert!(backend_calls(&s) == 0, "storage untouched");
+    kani::cover!(true, "end of harness reachable");
+    std::mem::forget(s);
+}
+
+//@ id=C07 tier=quick timeout=900 bounds="32 bytes: key = well-formed inline I64 (payload symbolic), value = index with type nibble 12 (no such DbValue variant) and size nibble 0, other bytes symbolic; storage without records" desc="DbKeyValue::load on a pair whose value index carries an unknown type tag returns Err (or Ok) and never panics" kernel="DbKeyValue::load,DbValueIndex::deserialize,DbValue::load_db_value"
+#[kani::proof]
+#[kani::stub(std::fmt::format, crate::verif_support::fmt_stub)]
+#[kani::stub(crate::DbError::new, crate::verif_support::dberror_new_stub)]
+#[kani::stub(<crate::DbError as std::convert::From<std::string::FromUtf8Error>>::from, crate::verif_support::utf8err_stub)]
+#[kani::stub(<crate::DbError as std::convert::From<std::array::TryFromSliceError>>::from, crate::verif_support::sliceerr_stub)]
+#[kani::stub(<crate::DbError as std::convert::From<std::num::TryFromIntError>>::from, crate::verif_support::interr_stub)]
+#[kani::unwind(4)]
+fn c07_kv_load_unknown_value_tag() {
+    let s = fresh_arr_storage();
+    let mut b: [u8; 32] = kani::any();
+    b[15] = (2 << 4) | 8;
+    b[31] = 12 << 4;
+    let r = kv_load(&s, &b);
+    kani::cover!(true, "end of harness reachable");
+    std::mem::forget(r);
+    std::mem::forget(s);
+}
+
+// Not covered here (measured): `DbKeyValue::remove` with storage indexes that
+// name missing records - `DbValueIndex::index()` copies 8 of the 16 bytes, after
+// which CBMC no longer treats the index as a constant and explores the whole
+// `Storage::remove` success path (free-list BTreeMap); 16 enumerated cases did
+// not finish in 900 s. `Storage::remove` on arbitrary indexes belongs to the
+// storage harnesses (C04/C07 open path).
+
+// ---------------------------------------------------------------------------
+// C09: DbKeyValues behaves as a per-element ordered key-value map
+// ---------------------------------------------------------------------------
+//
+// Storage: ArrStorage (192 bytes) cannot hold two elements with pairs - the
+// element table (16+8+8*3) plus one pair vector per element (16+8+32*cap) plus
+// the regions freed when vectors move to the end need 224+ bytes already for
+// "element 1: one pair, element 2: one pair" (computed from Storage's
+// allocation rules). `KvArr` is the same array-backed StorageData with 448
+// bytes, local to these harnesses.
+//
+// Encoding: element index, key and operation are ENUMERATED (concrete in every
+// call, so CBMC executes the storage layer with concrete offsets); the values
+// are symbolic i64.
+
+const KV_CAP: usize = 448;
+
+pub(crate) struct KvArr {
+    buf: [u8; KV_CAP],
+    len: usize,
+}
+
+impl StorageData for KvArr {
+    fn backup(&self, _name: &str) -> Result<(), DbError> {
+        Ok(())
+    }
+    fn copy(&self, _name: &str) -> Result<Self, DbError> {
+        Ok(Self { buf: self.buf, len: self.len })
+    }
+    fn len(&self) -> u64 {
+        self.len as u64
+    }
+    fn name(&self) -> &str {
+        "kvarr"
+    }
+    fn new(_name: &str) -> Result<Self, DbError> {
+        Ok(Self { buf: [0; KV_CAP], len: 0 })
+    }
+    fn read(&'_ self, pos: u64, value_len: u64) -> Result<crate::storage::StorageSlice<'_>, DbError> {
+        let end = pos + value_len;
+        Ok(crate::storage::StorageSlice::from(&self.buf[pos as usize..end as usize]))
+    }
+    fn rename(&mut self, _new_name: &str) -> Result<(), DbError> {
+        Ok(())
+    }
+    fn resize(&mut self, new_len: u64) -> Result<(), DbError> {
+        kani::assume(new_len as usize <= KV_CAP);
+        let new_len = new_len as usize;
+        if new_len < self.len {
+            self.buf[new_len..self.len].fill(0);
+        }
+        self.len = new_len;
+        Ok(())
+    }
+    fn write(&mut self, pos: u64, bytes: &[u8]) -> Result<(), DbError> {
+        let pos = pos as usize;
+        let end = pos + bytes.len();
+        kani::assume(end <= KV_CAP);
+        self.buf[pos..end].copy_from_slice(bytes);
+        if end > self.len {
+            self.len = end;
+        }
+        Ok(())
+    }
+}
+
+/// Reference model: per element (1, 2) an ordered list of at most 4 (key, value)
+/// pairs. Written without loops so the global unwind bound can stay small.
+#[derive(Clone, Copy)]
+struct C09Model {
+    k: [[i64; 4]; 3],
+    v: [[i64; 4]; 3],
+    n: [usize; 3],
+}
+
+impl C09Model {
+    fn new() -> Self {
+        Self { k: [[0; 4]; 3], v: [[0; 4]; 3], n: [0; 3] }
+    }
+    /// position of the first pair with this key
+    fn find(&self, e: usize, key: i64) -> Option<usize> {
+        let n = self.n[e];
+        if n > 0 && self.k[e][0] == key {
+            return Some(0);
+        }
+        if n > 1 && self.k[e][1] == key {
+            return Some(1);
+        }
+        if n > 2 && self.k[e][2] == key {
+            return Some(2);
+        }
+        if n > 3 && self.k[e][3] == key {
+            return Some(3);
+        }
+        None
+    }
+    /// append at the end
+    fn insert(&mut self, e: usize, key: i64, val: i64) {
+        let n = self.n[e];
+        assert!(n < 4, "model capacity");
+        self.k[e][n] = key;
+        self.v[e][n] = val;
+        self.n[e] = n + 1;
+    }
+    /// replace in place (position kept) or append; returns the old value
+    fn insert_or_replace(&mut self, e: usize, key: i64, val: i64) -> Option<i64> {
+        match self.find(e, key) {
+            Some(i) => {
+                let old = self.v[e][i];
+                self.v[e][i] = val;
+                Some(old)
+            }
+            None => {
+                self.insert(e, key, val);
+                None
+            }
+        }
+    }
+    /// delete exactly that key, keep the order of the others
+    fn remove_value(&mut self, e: usize, key: i64) {
+        if let Some(i) = self.find(e, key) {
+            if i <= 0 {
+                self.k[e][0] = self.k[e][1];
+                self.v[e][0] = self.v[e][1];
+            }
+            if i <= 1 {
+                self.k[e][1] = self.k[e][2];
+                self.v[e][1] = self.v[e][2];
+            }
+            if i <= 2 {
+                self.k[e][2] = self.k[e][3];
+                self.v[e][2] = self.v[e][3];
+            }
+            self.n[e] -= 1;
+        }
+    }
+    /// removing an element removes all its pairs
+    fn remove(&mut self, e: usize) {
+        self.n[e] = 0;
+    }
+}
+
+fn c09_kv(key: i64, val: i64) -> Kv {
+    Kv { key: DbValue::I64(key), value: DbValue::I64(val) }
+}
+
+fn c09_i64(v: &DbValue) -> i64 {
+    match v {
+        DbValue::I64(x) => *x,
+        _ => panic!("value of another type"),
+    }
+}
+
+fn c09_check_lookup(kvs: &DbKeyValues<KvArr>, s: &Storage<KvArr>, m: &C09Model, e: usize, key: i64) {
+    let got = ok(kvs.value(s, e as u64, &DbValue::I64(key)));
+    match (m.find(e, key), &got) {
+        (Some(i), Some(v)) => assert!(c09_i64(v) == m.v[e][i], "value() of a present key"),
+        (None, None) => {}
+        _ => panic!("value() presence differs from the model"),
+    }
+    std::mem::forget(got);
+}
+
+/// Compares everything observable about element `e` with the model.
+fn c09_observe(kvs: &DbKeyValues<KvArr>, s: &Storage<KvArr>, m: &C09Model, e: usize) {
+    let n = m.n[e];
+    assert!(ok(kvs.key_count(s, e as u64)) == n as u64, "key_count");
+    let keys = ok(kvs.keys(s, e as u64));
+    let values = ok(kvs.values(s, e as u64));
+    assert!(keys.len() == n && values.len() == n, "number of keys / pairs");
+    macro_rules! at {
+        ($($i:literal)*) => { $(
+            if $i < n {
+                assert!(c09_i64(&keys[$i]) == m.k[e][$i], "keys() in map order");
+                assert!(c09_i64(&values[$i].key) == m.k[e][$i], "values() keys in map order");
+                assert!(c09_i64(&values[$i].value) == m.v[e][$i], "values() current values");
+            }
+        )* };
+    }
+    at!(0 1 2 3);
+    // single lookups for every key of the universe
+    c09_check_lookup(kvs, s, m, e, 1);
+    c09_check_lookup(kvs, s, m, e, 2);
+    c09_check_lookup(kvs, s, m, e, 3);
+    // selection by keys: requested order [3, 1], missing keys skipped
+    let req = [DbValue::I64(3), DbValue::I64(1)];
+    let sel = ok(kvs.values_by_keys(s, e as u64, &req));
+    let mut expect_k = [0i64; 2];
+    let mut expect_v = [0i64; 2];
+    let mut en = 0;
+    if let Some(i) = m.find(e, 3) {
+        expect_k[en] = 3;
+        expect_v[en] = m.v[e][i];
+        en += 1;
+    }
+    if let Some(i) = m.find(e, 1) {
+        expect_k[en] = 1;
+        expect_v[en] = m.v[e][i];
+        en += 1;
+    }
+    assert!(sel.len() == en, "values_by_keys returns exactly the requested present keys");
+    if en > 0 {
+        assert!(c09_i64(&sel[0].key) == expect_k[0] && c09_i64(&sel[0].value) == expect_v[0], "values_by_keys first, requested order");
+    }
+    if en > 1 {
+        assert!(c09_i64(&sel[1].key) == expect_k[1] && c09_i64(&sel[1].value) == expect_v[1], "values_by_keys second, requested order");
+    }
+    std::mem::forget((keys, values, sel, req));
+}
+
+/// Common prefix, built through the real API and mirrored in the model:
+/// capacity for 3 pairs reserved on element 2 (sizes the element table for
+/// indexes 0..=2 once; element 2 becomes a valid element without pairs), then
+/// element 1 = [(1,a), (2,b)]. Element 1's pair vector is the last record of the
+/// file, so growing it never moves a record - this keeps the storage's free
+/// list (a BTreeMap, very expensive in CBMC) out of the prefix.
+fn c09_prefix(s: &mut Storage<KvArr>, val: &[i64; 2]) -> (DbKeyValues<KvArr>, C09Model) {
+    let mut kvs = ok(DbKeyValues::new(s));
+    let mut m = C09Model::new();
+    ok(kvs.reserve_capacity(s, 2, 3));
+    ok(kvs.insert_value(s, 1, &c09_kv(1, val[0])));
+    m.insert(1, 1, val[0]);
+    let r = ok(kvs.insert_or_replace(s, 1, &c09_kv(2, val[1])));
+    assert!(r.is_none(), "new key: nothing replaced");
+    m.insert_or_replace(1, 2, val[1]);
+    (kvs, m)
+}
+
+/// values() + key_count() of element `e` against the model.
+fn c09_observe_pairs(kvs: &DbKeyValues<KvArr>, s: &Storage<KvArr>, m: &C09Model, e: usize) {
+    let n = m.n[e];
+    assert!(ok(kvs.key_count(s, e as u64)) == n as u64, "key_count");
+    let values = ok(kvs.values(s, e as u64));
+    assert!(values.len() == n, "number of pairs");
+    macro_rules! at {
+        ($($i:literal)*) => { $(
+            if $i < n {
+                assert!(c09_i64(&values[$i].key) == m.k[e][$i], "values() keys in map order");
+                assert!(c09_i64(&values[$i].value) == m.v[e][$i], "values() current values");
+            }
+        )* };
+    }
+    at!(0 1 2 3);
+    std::mem::forget(values);
+}
+
+fn c09_fresh() -> Storage<KvArr> {
+    let mut b = [0u8; KV_CAP];
+    b[8] = 8;
+    b[16] = 1;
+    crate::storage::verif_h::raw_storage(KvArr { buf: b, len: 24 })
+}
+
+/// op: 0 insert_or_replace, 1 remove_value, 2 remove (element), 3 insert_value
+fn c09_step(kvs: &mut DbKeyValues<KvArr>, s: &mut Storage<KvArr>, m: &mut C09Model, op: u8, e: usize, key: i64, val: i64) {
+    match op {
+        0 => {
+            let old = ok(kvs.insert_or_replace(s, e as u64, &c09_kv(key, val)));
+            let expect = m.insert_or_replace(e, key, val);
+            match (&old, expect) {
+                (Some(o), Some(x)) => assert!(c09_i64(&o.key) == key && c09_i64(&o.value) == x, "insert_or_replace returns the replaced pair"),
+                (None, None) => {}
+                _ => panic!("insert_or_replace replaced/append decision differs from the model"),
+            }
+            std::mem::forget(old);
+        }
+        1 => {
+            ok(kvs.remove_value(s, e as u64, &DbValue::I64(key)));
+            m.remove_value(e, key);
+        }
+        2 => {
+            ok(kvs.remove(s, e as u64));
+            m.remove(e);
+        }
+        _ => {
+            ok(kvs.insert_value(s, e as u64, &c09_kv(key, val)));
+            m.insert(e, key, val);
+        }
+    }
+}
+
+//@ id=C09 tier=quick timeout=1500 bounds="prefix through the real API: reserve_capacity(2,3), element 1 = [(1,a),(2,b)], a,b symbolic i64; storage = 448-byte array back end; then insert_or_replace(1,(1,w)) and insert_or_replace(1,(3,x)), w,x symbolic" desc="replacing an existing key keeps its position and returns the old pair; a new key is appended at the end; the other element is unaffected" cbmc="--max-field-sensitivity-array-size 460" kernel="DbKeyValues::new,DbKeyValues::reserve_capacity,DbKeyValues::insert_value,DbKeyValues::insert_or_replace,DbKeyValues::values,DbKeyValues::key_count,DbVec::push,DbVec::replace,DbVec::from_storage"
+#[kani::proof]
+#[kani::stub(std::fmt::format, crate::verif_support::fmt_stub)]
+#[kani::stub(crate::DbError::new, crate::verif_support::dberror_new_stub)]
+#[kani::unwind(5)]
+fn c09_replace_in_place_then_append() {
+    let mut s = c09_fresh();
+    let val: [i64; 2] = kani::any();
+    let (mut kvs, mut m) = c09_prefix(&mut s, &val);
+    let w: i64 = kani::any();
+    let x: i64 = kani::any();
+    c09_step(&mut kvs, &mut s, &mut m, 0, 1, 1, w);
+    assert!(m.n[1] == 2 && m.k[1][0] == 1 && m.v[1][0] == w, "model: replaced in place");
+    c09_observe_pairs(&kvs, &s, &m, 1);
+    c09_step(&mut kvs, &mut s, &mut m, 0, 1, 3, x);
+    assert!(m.n[1] == 3 && m.k[1][2] == 3, "model: appended");
+    c09_observe_pairs(&kvs, &s, &m, 1);
+    c09_observe_pairs(&kvs, &s, &m, 2);
+    kani::cover!(w != val[0], "value really changed");
+    kani::cover!(true, "end of harness reachable");
+    std::mem::forget(kvs);
+    std::mem::forget(s);
+}
+
+//@ id=C09 tier=quick timeout=1500 bounds="prefix through the real API: reserve_capacity(2,3), element 1 = [(1,a),(2,b)], a,b symbolic i64; storage = 448-byte array back end; then remove_value(1, 3) (absent key), remove_value(1, 1), insert_or_replace(1,(1,w))" desc="removing an absent key changes nothing; removing a key deletes exactly that pair and keeps the order of the rest; re-inserting the key appends it at the end" cbmc="--max-field-sensitivity-array-size 460" kernel="DbKeyValues::remove_value,DbKeyValues::insert_or_replace,DbKeyValues::values,DbKeyValues::key_count,DbVec::remove,DbVec::push"
+#[kani::proof]
+#[kani::stub(std::fmt::format, crate::verif_support::fmt_stub)]
+#[kani::stub(crate::DbError::new, crate::verif_support::dberror_new_stub)]
+#[kani::unwind(5)]
+fn c09_remove_value_exact() {
+    let mut s = c09_fresh();
+    let val: [i64; 2] = kani::any();
+    let (mut kvs, mut m) = c09_prefix(&mut s, &val);
+    c09_step(&mut kvs, &mut s, &mut m, 1, 1, 3, 0);
+    c09_observe_pairs(&kvs, &s, &m, 1);
+    c09_step(&mut kvs, &mut s, &mut m, 1, 1, 1, 0);
+    assert!(m.n[1] == 1 && m.k[1][0] == 2, "model: only key 2 left");
+    c09_observe_pairs(&kvs, &s, &m, 1);
+    let w: i64 = kani::any();
+    c09_step(&mut kvs, &mut s, &mut m, 0, 1, 1, w);
+    assert!(m.n[1] == 2 && m.k[1][1] == 1, "model: key 1 now last");
+    c09_observe_pairs(&kvs, &s, &m, 1);
+    kani::cover!(true, "end of harness reachable");
+    std::mem::forget(kvs);
+    std::mem::forget(s);
+}
+
+//@ id=C09 tier=quick timeout=1500 bounds="prefix through the real API: reserve_capacity(2,3), element 1 = [(1,a),(2,b)], a,b symbolic i64; storage = 448-byte array back end; then insert_or_replace(2,(1,c)), remove(1), insert_or_replace(1,(2,w)) (element index reused)" desc="removing an element removes all its pairs and nothing of the other element; the index can be reused and starts empty" cbmc="--max-field-sensitivity-array-size 460" kernel="DbKeyValues::remove,DbKeyValues::insert_or_replace,DbKeyValues::insert_value,DbKeyValues::values,DbKeyValues::key_count,DbVec::remove_from_storage,DbVec::new"
+#[kani::proof]
+#[kani::stub(std::fmt::format, crate::verif_support::fmt_stub)]
+#[kani::stub(crate::DbError::new, crate::verif_support::dberror_new_stub)]
+#[kani::unwind(5)]
+fn c09_remove_element_and_reuse() {
+    let mut s = c09_fresh();
+    let val: [i64; 2] = kani::any();
+    let (mut kvs, mut m) = c09_prefix(&mut s, &val);
+    let c: i64 = kani::any();
+    c09_step(&mut kvs, &mut s, &mut m, 0, 2, 1, c);
+    c09_observe_pairs(&kvs, &s, &m, 2);
+    c09_step(&mut kvs, &mut s, &mut m, 2, 1, 0, 0);
+    assert!(m.n[1] == 0 && m.n[2] == 1, "model: element 1 empty, element 2 kept");
+    c09_observe_pairs(&kvs, &s, &m, 1);
+    c09_observe_pairs(&kvs, &s, &m, 2);
+    let w: i64 = kani::any();
+    c09_step(&mut kvs, &mut s, &mut m, 0, 1, 2, w);
+    assert!(m.n[1] == 1 && m.k[1][0] == 2, "model: reused element holds only the new pair");
+    c09_observe_pairs(&kvs, &s, &m, 1);
+    c09_observe_pairs(&kvs, &s, &m, 2);
+    kani::cover!(true, "end of harness reachable");
+    std::mem::forget(kvs);
+    std::mem::forget(s);
+}
+
+//@ id=C09 tier=thorough timeout=3600 bounds="prefix through the real API: reserve_capacity(2,3), element 1 = [(1,a),(2,b)], a,b symbolic i64; storage = 448-byte array back end; then insert_value(1,(3,x)); observers on element 1 (3 pairs), element 2 (valid, no pairs) and element 7 (never touched)" desc="keys(), value() for keys 1..=3, values_by_keys([3,1]) (requested order, missing keys skipped), values(), key_count() agree with the reference list; an element without pairs or beyond the table yields empty results, not errors" cbmc="--max-field-sensitivity-array-size 460" kernel="DbKeyValues::keys,DbKeyValues::value,DbKeyValues::values_by_keys,DbKeyValues::values,DbKeyValues::key_count,DbKeyValues::insert_value"
+#[kani::proof]
+#[kani::stub(std::fmt::format, crate::verif_support::fmt_stub)]
+#[kani::stub(crate::DbError::new, crate::verif_support::dberror_new_stub)]
+#[kani::unwind(5)]
+fn c09_observers_match_model() {
+    let mut s = c09_fresh();
+    let val: [i64; 2] = kani::any();
+    let (mut kvs, mut m) = c09_prefix(&mut s, &val);
+    let x: i64 = kani::any();
+    c09_step(&mut kvs, &mut s, &mut m, 3, 1, 3, x);
+    c09_observe(&kvs, &s, &m, 1);
+    c09_observe(&kvs, &s, &m, 2);
+    // an element index beyond the table
+    assert!(ok(kvs.key_count(&s, 7)) == 0, "unknown element has no keys");
+    let v = ok(kvs.values(&s, 7));
+    let k = ok(kvs.keys(&s, 7));
+    let one = ok(kvs.value(&s, 7, &DbValue::I64(1)));
+    assert!(v.len() == 0 && k.len() == 0 && one.is_none(), "unknown element yields empty results");
+    kani::cover!(true, "end of harness reachable");
+    std::mem::forget((v, k, one));
+    std::mem::forget(kvs);
+    std::mem::forget(s);
+}
